@@ -14,7 +14,7 @@ run_demo() {
 }
 echo "--- HEAD: demo"; run_demo; head_rc=$?
 git apply $OUT/patch_$X.diff || { echo "patch does not apply"; exit 2; }
-echo "--- mutant: stock suite"; cargo test --offline 2>&1 | grep -E "^test result" | head -1
+echo "--- mutant: stock suite"; rm -rf tests/demo_*.rs; cargo test --offline 2>&1 | grep -E "^test result" | head -1
 echo "--- mutant: demo"; run_demo; mut_rc=$?
 git checkout -q -- . ; rm -rf tests/demo_*.rs; rmdir tests 2>/dev/null
 echo "RESULT $P-$X head_rc=$head_rc mutant_rc=$mut_rc"
